@@ -16,6 +16,10 @@ CHECKS = {
    text='Coq: the canonical anticommutation relations are proved for all modes/states in the Fock semantics (the rewrite rules of normal ordering); an executable transcription of normal_ordered_ladder_term / normal_ordered_quad_term is proved, by complete enumeration inside Coq, to preserve the denotation, produce normal-ordered terms and be idempotent on all words of length <= 4 (3 fermionic modes; 2 bosonic/quadrature modes, hbar = 2 and 1/2). Every implementation output (exhaustive small words + random operators, large indices, all three algebras, several hbar, InteractionOperator, chemist_ordered, reorder, two spellings of one operator) is compared with the model and judged by the verified checker fermi_equiv / the Bargmann-Fock action.',
    note='Unbounded: CAR lemmas and checker soundness. Bounded [B]: model correctness on the stated word domain. Beyond it: per-input validation of implementation outputs. Completeness of the boson/quad grid test (operators of degree <= d agree iff they agree on monomials of exponent <= d) is cited, not formalised.',
    tech='Coq proof (CAR, checker soundness) + exhaustive vm_compute theorems + verified-checker translation validation'),
+ 'C07': dict(cat='proof', design='3/C07',
+   text='Coq theorems for all operators/modes/states: hermitian_conjugated on fermionic operators is the adjoint (conjugate-transpose matrix elements), an involution and anti-multiplicative; the checkers fcomm_check / fdcomm_check / fcomm_zero / qcomm_check are proved to decide exactly AB-BA, [A,[B,C]] and their vanishing for the denoted operators. Every implementation result (hermitian_conjugated for four classes, commutator, anticommutator, double_commutator with the hopping shortcut on all index patterns, the dual-basis predicates on ALL pairs/triples of dual-basis terms of n modes, the using_term_info variant on its documented family, the diagonal-Coulomb commutator, trotter_error predicates) is judged by these checkers inside Coq.',
+   note='Unbounded proofs: adjoint theorem, checker soundness. The predicates/shortcuts of the implementation are validated per input (complete for n=3 modes quick, n=4 thorough), not proved for all n. Known finding D6 (trivially_double_commutes_dual_basis) is reported as KNOWN-FINDING inside its region only. bch_expand: see evidence parts.',
+   tech='Coq proof (adjoint, commutator-checker soundness) + exhaustive small-domain validation by vm_compute'),
 }
 def main():
     fixes = subprocess.run("git -C /repo log --format=%H --grep='^fix:'", shell=True, capture_output=True, text=True).stdout.split()
